@@ -7,21 +7,19 @@ from . import _difffam as FAM
 
 ID = 'C01'
 LEAN_TARGETS = ['Properties.C01']
-THEOREMS = []
+THEOREMS = ['Delta.C01_opcode_replay', 'Delta.C01_opcodes_root_list', 'Delta.C01_opcodes_root_tuple', 'Delta.C01_empty_identity', 'Delta.C01_self', 'Delta.C01_write_read', 'Delta.C01_N_set_in_tuple', 'Delta.C01_N_tuple_in_tuple']
 RULE = ('tree-shaped pairs (generated values with 1-3 edits, flat lists with insert/delete/replace/move/duplicate, tuples edited in place, numeric arrays) x '
         'zip_ordered_iterables x threshold_to_diff_deeper in {0,0.33,0.9} x verbose_level in {0,1,2} x view in {text,tree} x always_include_values, mutate=False; '
         'chains of <= 6 successive edits; ignore_order+report_repetition on lists of distinct scalars. t1 + Delta(DeepDiff(t1,t2)) is compared with t2 (== plus container '
         'types), inputs are snapshotted; the delta payload and the result are compared with the Lean model. distinct = distinct (t1, t2, config); non-trivial = t1 != t2')
 TRUSTED_BASE = ['copy.deepcopy and input non-mutation are observed by snapshots, not proved', 'numpy arrays are exercised on the implementation only', 'difflib is an oracle (own port in the driver)']
-ASSUMPTIONS = ['Dom_C01 (evaluated on the diff): no structural edit or leaf change whose tuple container sits inside another tuple, no set edited inside a tuple, no insertion '
-               'into the middle of a tuple outside an opcode-covered list (findings F4a-c)']
+ASSUMPTIONS = ['Dom_C01 (evaluated on the diff): no structural edit or leaf change whose tuple container sits inside another tuple, no set edited inside a tuple (findings F4b, F4c)']
 
 
 def in_domain(t1, t2, **kw):
     """Dom_C01, evaluated on the diff tree (see ASSUMPTIONS)"""
     from deepdiff import DeepDiff
     tree = DeepDiff(t1, t2, view='tree', **kw)
-    ops = set(getattr(tree, '_iterable_opcodes', {}) or {})
     for cat, levels in tree.items():
         if not hasattr(levels, '__iter__') or cat == 'deep_distance':
             continue
@@ -38,10 +36,6 @@ def in_domain(t1, t2, **kw):
             if isinstance(cont1, tuple) or isinstance(cont2, tuple):
                 if gp is not None and isinstance(gp.t1, tuple):
                     return False, 'F4c: tuple edited inside a tuple'
-                if cat == 'iterable_item_added' and up.path(force='fake') not in ops:
-                    idx = lv.t2_child_rel.param if lv.t2_child_rel is not None else None
-                    if isinstance(idx, int) and idx < len(cont1):
-                        return False, 'F4a: insertion into the middle of a tuple'
     return True, ''
 
 
@@ -56,6 +50,7 @@ def special_pairs():
     out = [
         ([1, 2, 3, 4], [1, 3, 4, 5, 6]),
         ((1, 2, 3, 4), (1, 3, 4, 5, 6)),                       # fixed F2
+        ((1, 2, 3), (1, 9, 2, 3)), ({'a': (1, 2, 3)}, {'a': (0, 1, 2, 3)}),   # fixed F4a
         ([(1, 2, 3, 4)], [(1, 3, 4, 5, 6)]),
         ({'a': {1: 1, 'b': 2, 'c': 5}}, {'a': {'c': 5}}),       # fixed F1
         ({None: 1, 'a': 2}, {'a': 2}),                         # fixed F3
@@ -94,6 +89,7 @@ def check_pair(ctx, t1, t2, zip_, thr, vb, view, always, lines, metas, impl_only
     ctx.evaluations += 1
     s1, s2 = copy.deepcopy(t1), copy.deepcopy(t2)
     is_np = 'array(' in repr(t1)
+    root_np = type(t1).__name__ == 'ndarray'
     try:
         ok_dom, why = (True, '') if is_np else in_domain(t1, t2, **kw)
     except Exception as e:
@@ -101,13 +97,27 @@ def check_pair(ctx, t1, t2, zip_, thr, vb, view, always, lines, metas, impl_only
     try:
         dd = DeepDiff(t1, t2, verbose_level=vb, view=view, **kw)
         delta = Delta(dd, always_include_values=always)
-        out, r = DL.apply_outcome(lambda: t1 + delta)
+        out, r = DL.apply_outcome((lambda: delta + t1) if root_np else (lambda: t1 + delta))     # numpy's own + wins over __radd__: documented, use delta + t1
     except Exception as e:
         out, r = 'RAISED:' + type(e).__name__, None
+    if not out.startswith('RAISED') or True:
+        try:
+            for pth, ops in (delta.diff.get('_iterable_opcodes') or {}).items():
+                i = j = 0
+                for o in ops:
+                    good = (o.t1_from_index == i and o.t2_from_index == j and o.t2_from_index <= o.t2_to_index and o.tag in ('equal', 'replace', 'insert', 'delete')
+                            and (o.tag != 'delete' or o.t2_from_index == o.t2_to_index))
+                    if not good:
+                        ctx.violate(case, 'assumption TilesO fails: the opcodes recorded at %s do not tile the two lists' % pth)
+                        break
+                    i, j = o.t1_to_index, o.t2_to_index
+                ctx.count('opcode_lists_tiling_checked')
+        except UnboundLocalError:
+            pass
     if not is_np and not (strict_eq(t1, s1) and strict_eq(t2, s2)):
         ctx.violate(case, 'an input was modified')
     ctx.count('dom' if ok_dom else 'out_of_domain:' + why.split(':')[0])
-    if not strict_eq_safe(t1, t2):
+    if is_np or not strict_eq_safe(t1, t2):
         ctx.nontriv((repr(t1), repr(t2), zip_, thr, vb, view, always))
     if ok_dom:
         if out.startswith('RAISED'):
@@ -193,7 +203,6 @@ def run(ctx, impl_only=False):
         except Exception:
             return False
     wit = {
-        'F4a': lambda: same((1, 2, 3), (1, 9, 2, 3)),
         'F4b': lambda: same([([], {1})], [([], {1, 'b'})]),
         'F4c': lambda: same([((1, 2), 0)], [((1, 3), 0)]),
     }
